@@ -104,7 +104,7 @@ theorem desugar_incdec_once (E : GV.Desugar.Env σ) (hp : MemPure E) (x : Ex) (h
 /-- a store that is only a trace of the opaque operands evaluated so far -/
 def traceEnv : GV.Desugar.Env (List Nat) :=
   { opq := fun k s => (k, s ++ [k]), var := fun x => x, lit := fun n => n, idx := fun a b => a + b, fld := fun a f => a + f,
-    deref := fun a => a, load := fun _ _ => 0, store := fun _ _ s => s, op := fun a b => a + b }
+    deref := fun a => a, load := fun _ _ => 0, store := fun _ _ s => s, op := fun a b => a + b, cv := fun a => a }
 
 /-- the specification evaluates the opaque operands in source order, each once … -/
 theorem spec_trace (x y : Ex) (ha : addressable x = true) (t : Tmp) (s : List Nat) :
@@ -120,6 +120,7 @@ theorem spec_trace (x y : Ex) (ha : addressable x = true) (t : Tmp) (s : List Na
     | star x ih => intro s; simp [evalR, opqs, ih]
     | opq k => intro s; simp [evalR, opqs, traceEnv]
     | bin l r ihl ihr => intro s; simp [evalR, opqs, ihl, ihr, List.append_assoc]
+    | conv x ih => intro s; simp [evalR, opqs, ih]
   have keyL : (evalL traceEnv t x s).2 = s ++ opqs x := by
     cases x <;> simp [addressable] at ha <;> simp [evalL, opqs, key, List.append_assoc]
   simp only [specOpAssign, keyL, key]
@@ -136,6 +137,66 @@ theorem naive_rewrite_wrong :
     execAssign traceEnv (fun _ => 0) (.index (.ident 0) (.opq 7)) (.bin (.index (.ident 0) (.opq 7)) (.opq 9)) [] ≠
       specOpAssign traceEnv (fun _ => 0) (.index (.ident 0) (.opq 7)) (.opq 9) [] := by
   decide
+
+/-! ### which operands are treated as pure — and why that is enough -/
+
+/-- an operand `viaTmpVars` keeps in place (identifier, basic literal, temporary) is returned unchanged, without a
+    temporary … -/
+theorem kept_in_place (e : Ex) (name n : Nat) (h : operandClass e = .keptInPlace) : viaTmp e name n = (e, n, []) := by
+  cases e <;> simp [operandClass] at h <;> rfl
+
+/-- … and it really is pure: it contains no opaque operand and evaluating it leaves every store unchanged -/
+theorem kept_in_place_pure (E : GV.Desugar.Env σ) (e : Ex) (h : operandClass e = .keptInPlace) (t : Tmp) (s : σ) :
+    opqs e = [] ∧ (evalR E t e s).2 = s := by
+  cases e <;> simp [operandClass] at h <;> exact ⟨rfl, rfl⟩
+
+/-- EVERYTHING else that is not an index / selector / indirection node — calls, type conversions, unary and binary
+    expressions, type assertions, literals called in place — is hoisted: evaluated once into a fresh temporary -/
+theorem everything_else_hoisted (e : Ex) (name n : Nat) (h : operandClass e = .hoisted) :
+    viaTmp e name n = (.tmp n, n + 1, [⟨n, name, e⟩]) := by
+  cases e <;> simp [operandClass] at h <;> rfl
+
+/-- hence the rewritten lvalue never contains an operand that can have an effect: `desugar_once` is true exactly because
+    the kept-in-place class is {identifier, literal} and nothing else -/
+theorem desugar_residue_pure (x y : Ex) (hx : noTmp x = true) :
+    pureEx (desugar x y).lhs = true ∧ opqs (desugar x y).lhs = [] := by
+  have h := (viaTmp_spec traceEnv (fun _ _ _ => rfl) x 4 0 (fun _ => 0) [] hx).2.1
+  refine ⟨h, ?_⟩
+  have key : ∀ e : Ex, pureEx e = true → opqs e = [] := by
+    intro e
+    induction e with
+    | opq k => intro h; simp [pureEx] at h
+    | index x i ihx ihi => intro h; simp only [pureEx, Bool.and_eq_true] at h; simp [opqs, ihx h.1, ihi h.2]
+    | sel x f ih => intro h; simp only [pureEx] at h; simp [opqs, ih h]
+    | star x ih => intro h; simp only [pureEx] at h; simp [opqs, ih h]
+    | bin l r ihl ihr => intro h; simp only [pureEx, Bool.and_eq_true] at h; simp [opqs, ihl h.1, ihr h.2]
+    | conv x ih => intro h; simp only [pureEx] at h; simp [opqs, ih h]
+    | ident x => intro _; rfl
+    | lit k => intro _; rfl
+    | tmp j => intro _; rfl
+  exact key _ h
+
+/-! ### SEEDED CHANGE `C01-conversion-operand-not-hoisted`: "a type conversion has no side effects" -/
+
+/-- Treating a conversion operand as pure (keeping `T(f())` in place without inspecting its argument) is WRONG: in
+    `a[T(f())] += g()` the call `f` runs twice — once for the read, once for the write (trace `f f g`, Go: `f g`). -/
+theorem conversion_kept_in_place_wrong :
+    execBlock traceEnv (fun _ => 0) (desugarConvPure (.index (.ident 0) (.conv (.opq 7))) (.opq 9)) [] = [7, 7, 9] ∧
+    specOpAssign traceEnv (fun _ => 0) (.index (.ident 0) (.conv (.opq 7))) (.opq 9) [] = [7, 9] ∧
+    execBlock traceEnv (fun _ => 0) (desugar (.index (.ident 0) (.conv (.opq 7))) (.opq 9)) [] = [7, 9] := by
+  decide
+
+/-- the same for a pointer conversion `(*T)(p()).f -= …` and for `x[T(f())]++` -/
+theorem conversion_kept_in_place_wrong' :
+    execBlock traceEnv (fun _ => 0) (desugarConvPure (.sel (.conv (.opq 3)) 0) (.opq 9)) [] ≠
+      specOpAssign traceEnv (fun _ => 0) (.sel (.conv (.opq 3)) 0) (.opq 9) [] ∧
+    execBlock traceEnv (fun _ => 0) (desugarConvPure (.index (.ident 0) (.conv (.opq 7))) (.lit 1)) [] ≠
+      specOpAssign traceEnv (fun _ => 0) (.index (.ident 0) (.conv (.opq 7))) (.lit 1) [] := by
+  decide
+
+/-- a conversion of a plain variable is unaffected by that change (why ordinary programs did not notice) -/
+example : execBlock traceEnv (fun _ => 0) (desugarConvPure (.index (.ident 0) (.conv (.ident 1))) (.opq 9)) [] =
+    specOpAssign traceEnv (fun _ => 0) (.index (.ident 0) (.conv (.ident 1))) (.opq 9) [] := by decide
 
 /-- the hypotheses are satisfiable by a non-trivial statement: `p().f[i()] += g()` -/
 example : noTmp (.index (.sel (.opq 1) 0) (.opq 2)) = true ∧ addressable (.index (.sel (.opq 1) 0) (.opq 2)) = true ∧
